@@ -875,10 +875,17 @@ structdecl(struct scope *s, struct structbuilder *b)
 	for (;;) {
 		if (consume(TCOLON)) {
 			width = intconstexpr(s, false);
+			if (width == -1)
+				error(&tok.loc, "bit-field exceeds width of underlying type");
 			addmember(b, base, NULL, 0, width);
 		} else {
 			mt = declarator(s, base, &name, NULL, false);
-			width = consume(TCOLON) ? intconstexpr(s, false) : -1;
+			width = -1;
+			if (consume(TCOLON)) {
+				width = intconstexpr(s, false);
+				if (width == -1)
+					error(&tok.loc, "bit-field '%s' exceeds width of underlying type", name);
+			}
 			addmember(b, mt, name, align, width);
 		}
 		if (tok.kind == TSEMICOLON)
